@@ -8,6 +8,7 @@ from arrays import (Lab, build_array, compare_lab, cq_dim, cq_dimset, cq_farr, c
 from common import cq_list, cq_nat, letter_code
 
 ID = "C07"
+THOROUGH_ROUNDS = 2      # rounds of generate() in the thorough tier (new random draws each round)
 COQ_MODULE = "Corr.C07"
 RULE = ("exhaustive over ordered dimension subsets of a 3-letter (quick) / 4-letter (thorough) universe for the array, "
         "crossed with every ordered subset of kept / summed / added dimensions, three ways of naming a dimension "
